@@ -123,7 +123,8 @@ _TYPES = {}
 def types_cached(p):
     v = _TYPES.get(p)
     if v is None:
-        v = _TYPES[p] = types(p)
+        # long permutations: the linear-time formulation (cross-checked with the definition in selftest)
+        v = _TYPES[p] = types(p) if len(p) <= 8 else types_fast(p)
     return v
 
 
@@ -137,6 +138,7 @@ def selftest(maxlen):
                 d = member_def(p, c)
                 assert d == member_basis(p, c), ("reference formulations disagree", p, c)
                 cnt[c] += d
+            assert types_fast(p) == types(p), ("linear-time membership disagrees", p)
         if n >= 1:
             assert cnt["L2"] == cnt["L2R"] == fib(n), (n, cnt)
             for c in ("W+-", "W-+", "Wi+-", "Wi-+"):
@@ -298,3 +300,112 @@ def arrangements(p, q, C):
     the completion both ways."""
     C = list(C)
     return [[p, q] + C, [q, p] + C, [p] + C + [q], [q] + C + [p], C + [p, q], C + [q, p]]
+
+
+# -------------------------------------------------------------------------------------------
+# 'scale' family: long elements with a prescribed small descent set, linear-time membership
+# -------------------------------------------------------------------------------------------
+
+def _mono_prefix(p, d):
+    """Length of the longest d-monotone prefix."""
+    a = min(len(p), 1)
+    while a < len(p) and ((p[a - 1] < p[a]) if d == "+" else (p[a - 1] > p[a])):
+        a += 1
+    return a
+
+
+def _mono_suffix(p, d):
+    """Smallest b such that p[b:] is d-monotone."""
+    b = max(len(p) - 1, 0)
+    while b > 0 and ((p[b - 1] < p[b]) if d == "+" else (p[b - 1] > p[b])):
+        b -= 1
+    return b
+
+
+def juxt_fast(p, d1, d2):
+    """Same as juxt, in linear time: p[:k] is monotone for k <= a, p[k:] is monotone for k >= b."""
+    return _mono_prefix(p, d1) >= _mono_suffix(p, d2)
+
+
+def types_fast(p):
+    """types(p) in linear time (for long permutations)."""
+    q = R.inverse(p)
+    m = 0
+    for c in CLASSES[:8]:
+        w = q if c.startswith("Wi") else p
+        if juxt_fast(w, c[-2], c[-1]):
+            m |= BIT[c]
+    if in_L2(p):
+        m |= BIT["L2"]
+    if in_L2R(p):
+        m |= BIT["L2R"]
+    return m
+
+
+def descent_set(p):
+    return tuple(i for i in range(len(p) - 1) if p[i] > p[i + 1])
+
+
+RULES = ("skew", "riffle", "lexmin")
+
+
+def perm_with_descents(n, D, rule):
+    """A permutation of length n whose descent set is exactly D, by one of three fixed rules:
+    skew   - the increasing runs are intervals of values, earlier runs above later runs;
+    riffle - values ordered by (position inside its run, later runs first), so the runs interleave;
+    lexmin - the identity with every maximal block of consecutive descent positions reversed
+             (the lexicographically smallest permutation with that descent set)."""
+    D = sorted(D)
+    assert all(0 <= d <= n - 2 for d in D)
+    run, inrun = [], []
+    r = k = 0
+    for i in range(n):
+        run.append(r)
+        inrun.append(k)
+        k += 1
+        if i in D:
+            r, k = r + 1, 0
+    if rule == "skew":
+        keys = [(-run[i], inrun[i]) for i in range(n)]
+    elif rule == "riffle":
+        keys = [(inrun[i], -run[i]) for i in range(n)]
+    else:
+        p = list(range(n))
+        i = 0
+        Ds = set(D)
+        while i < n - 1:
+            if i in Ds:
+                j = i
+                while j in Ds:
+                    j += 1
+                p[i:j + 1] = p[i:j + 1][::-1]
+                i = j
+            else:
+                i += 1
+        assert descent_set(p) == tuple(D), (n, D, rule, p)
+        return tuple(p)
+    order = sorted(range(n), key=lambda i: keys[i])
+    p = [0] * n
+    for v, i in enumerate(order):
+        p[i] = v
+    assert descent_set(p) == tuple(D), (n, D, rule, p)
+    return tuple(p)
+
+
+def probe_positions(n):
+    return sorted(x for x in {0, 1, 2, 7, 8, 9, 31, 32, 33, n - 3, n - 2} if 0 <= x <= n - 2)
+
+
+def scale_descent_sets(n, maxsize):
+    """Every descent set of size 0..maxsize over the probe positions (ends, the 8-slot and 32-slot
+    set-table boundaries); for n >= 33 additionally every set of 5..7 positions out of
+    {0,1,2,3,4,31,32} (a 5..18 element set holding a value >= 32)."""
+    out = []
+    P = probe_positions(n)
+    for r in range(0, maxsize + 1):
+        out.extend(itertools.combinations(P, r))
+    if n >= 33 and maxsize >= 4:
+        Q = [x for x in (0, 1, 2, 3, 4, 31, 32) if x <= n - 2]
+        for r in (5, 6, 7):
+            out.extend(itertools.combinations(Q, r))
+    return out
